@@ -551,7 +551,7 @@ func runOptions(raw json.RawMessage) (*Result, error) {
 // generators
 
 var optStrings = []string{"", "a", "b", "Xor", "nand", "ALSO", ",", ";", "|", "é", "«", "»", "(", ")", "[", "]", "\"", "'", "<<", ">>", "x y", "∧", "&&", "ab", "Zz9"}
-var encapStrings = []string{"(", ")", "[", "]", "\"", "'", "<", ">", "«", "»", "<<", "<", "a", "ab", "", "`"}
+var encapStrings = []string{"(", ")", "[", "]", "\"", "'", "<", ">", "«", "»", "<<", "<", "a", "ab", "", "`", "A", "aB", "Ab"}
 var levelNames = []string{"NONE", "CALLS", "POLICY", "STATE", "DEBUG", "ERROR", "TRACE", "USER1", "USER2", "USER3", "USER4",
 	"USER5", "USER6", "USER7", "USER8", "USER9", "USER10", "ALL"}
 
